@@ -435,7 +435,19 @@ func (c *stepCheck) checkStop(hung bool) {
 		if ss > t0s {
 			lateSpawns[r.Name]++
 			disc := "launched-after-stop" // the loop itself launched it after the stop: a policy failure
-			if c.statusAtStop[r.Name] == "running" {
+			launchedBefore := c.statusAtStop[r.Name] == "running"
+			if c.statusAtStop[r.Name] == "canceled" {
+				// the sample is taken when the cancel flag is first seen, which may be after the stop has
+				// already relabelled the running nodes: a node without a blocking dependency can only have
+				// become "canceled" that way, i.e. it was running (launched) when the stop came
+				launchedBefore = true
+				for _, dn := range spec.Depends {
+					if l := c.statusAtStop[dn]; l == "failed" || l == "canceled" || l == "skipped" {
+						launchedBefore = false
+					}
+				}
+			}
+			if launchedBefore {
 				// its worker had been launched before the stop and was between its last
 				// cancel check and the process start: a check-then-act race
 				disc = "worker-already-launched"
@@ -511,7 +523,7 @@ func (c *stepCheck) checkStop(hung bool) {
 				}
 			}
 			if !sawCustom {
-				c.viol("C05", "signal-on-stop-ignored", spec.SignalOnStop, "step %s has signalOnStop=%s but received %v", r.Name, spec.SignalOnStop, r.Signals)
+				c.viol("C05", "signal-on-stop-ignored", spec.SignalOnStop, "step %s has signalOnStop=%s but received %s", r.Name, spec.SignalOnStop, fmt.Sprint(r.Signals, " states at the stop: ", c.statusAtStop))
 			} else {
 				bump(c.out, "signal_on_stop_delivered")
 			}
@@ -561,19 +573,28 @@ func (c *stepCheck) checkStop(hung bool) {
 	if t0s < lastStepEnd || anyAlive {
 		if got := c.final.Status.String(); got != "canceled" {
 			disc := got
+			// which steps were active when the stop took effect — by what the processes say, not by the
+			// labels (a worker that is descheduled between its process's exit and its status update still
+			// shows "running")
 			onlyRepeatActive, anyActive := true, false
 			for name, st := range c.statusAtStop {
-				if st == "running" {
+				if sp := d.Step(name); sp != nil && sp.Repeat && st == "running" {
 					anyActive = true
-					if sp := d.Step(name); sp == nil || !sp.Repeat {
-						onlyRepeatActive = false
-					}
+				}
+			}
+			for _, r := range c.truth.Runs {
+				if isHandler(r.Name) {
+					continue
+				}
+				if sp := d.Step(r.Name); sp != nil && !sp.Repeat && spawnSeq[r.Pid] <= t0s && (r.EndSeq == 0 || r.EndSeq > t0s) {
+					anyActive = true
+					onlyRepeatActive = false
 				}
 			}
 			if anyActive && onlyRepeatActive {
 				disc += "/only-repeating-steps-active"
 			}
-			c.viol("C05", "stopped-run-outcome", disc, "run stopped while steps were running is reported %q", got)
+			c.viol("C05", "stopped-run-outcome", disc, "run stopped while steps were running is reported %q (step states when the stop took effect: %v)", got, c.statusAtStop)
 		}
 		if _, ok := d.Handlers["cancel"]; ok && c.final.Status.String() == "canceled" {
 			if n := len(c.truth.RunsOf(0, "on_cancel")); n != 1 {
